@@ -33,7 +33,9 @@ EXPLANATION = (
     "_LIQUIDS/_GASES has the files call_lib opens. (R19.5) create_pipe(s) write the values of load_std_type (through "
     "retrieve_u) unless the deprecated keyword arguments override them. (R19.6, thorough) with SUM as an opaque linear "
     "operator the 1-d and 2-d arms of each calculate_mixture_* agree and equal the documented rule; the mass fraction "
-    "is x M / SUM(x M). Not decided: interpolation values (SciPy), bounds of mixture values.")
+    "is x M / SUM(x M). (R19.7) the assumption that interp1d interpolates linearly through the tabulated points holds "
+    "for its defaults only: every call site of scipy's interp1d in the package keeps kind linear, leaves assume_sorted "
+    "False (so any table order is reproduced) and passes no silent constant fill. Not decided: interpolation values (SciPy), bounds of mixture values.")
 ASSUMPTIONS = ["scipy.interpolate.interp1d interpolates linearly and extrapolates linearly with fill_value='extrapolate'",
                "np.sum / sum are linear"]
 TECHNIQUE = "normal forms with limit-swap substitution and symbolic differentiation; guarded comparison of sibling arms; parsing of library data files"
